@@ -93,7 +93,7 @@ def oracle(c, ans):
 def check(run):
     rng = run.rng
     cases = []
-    for _ in range(2500 if run.tier == "thorough" else 300):
+    for _ in range(3000 if run.tier == "thorough" else 800):
         prog, use, emacros = gen_case(rng)
         cases.append(mk_case(prog, "emacros", use=use, emacros=emacros))
     # fixed corner cases: same-name forwarding, different-name forwarding, recursion
